@@ -29,7 +29,7 @@ CLAIMED = {
         design="4/C14"),
     "C10": dict(
         technique="MIR stored-value flow: origin of the (vamm, trader) pair in every position store/remove key and in every tmp-swap store, per execute->reply chain step; field-assignment census; query entry signatures; unsafe census with fixture",
-        note="Decided: R10.1 position writes key on (msg.vamm, info.sender) in execute arms / (tmp_swap.vamm, tmp_swap.trader) in replies / msg.trader for Liquidate; R10.2 tmp-swap.trader origin; R10.3 Position.vamm/trader assigned only from the requested key; R10.4 queries take read-only Deps, no unsafe (positive-control fixture); R10.5 DepositMargin proves position.trader == info.sender. Not decided: key aliasing through the separator-free sha3(vamm||trader) for address strings a real chain's addr_validate would reject; re-entrancy via a malicious vAMM.",
+        note="Decided: R10.1 position writes key on (msg.vamm, info.sender) in execute arms / (tmp_swap.vamm, tmp_swap.trader) in replies / msg.trader for Liquidate; R10.2 tmp-swap.trader origin (the named address itself through addr_validate/Addr::unchecked only, not a value computed from it); R10.3 Position.vamm/trader assigned only from the requested key; R10.4 queries take read-only Deps, no unsafe (positive-control fixture); R10.5 DepositMargin proves position.trader == info.sender. Not decided: key aliasing through the separator-free sha3(vamm||trader) for address strings a real chain's addr_validate would reject; re-entrancy via a malicious vAMM.",
         design="4/C10"),
     "C03": dict(
         technique="MIR message census over all product code (+fixture) and receiver/payer origin analysis of every transfer constructible on each chain step",
@@ -37,7 +37,7 @@ CLAIMED = {
         design="4/C03"),
     "C17": dict(
         technique="MIR sibling agreement between query and execute arms (same pricing callee, same operand origins), reserve-writer argument flow, limit-comparison table on success/reject paths, cross-contract limit forwarding",
-        note="Decided: R17.1 InputAmount/OutputAmount and SwapInput/SwapOutput call the same pricing function on (msg.direction, msg amount, State reserves) and use the result unchanged; R17.2 reserve writer gets requested amount unchanged, priced amount on the other side, direction unchanged/flipped; R17.3 limit table (receive: >= limit, owe: <= limit, zero: untested, rejection only on strict violation); R17.5 engine forwards the caller's limit unchanged on increase, reduce, whole close, full liquidation. Not decided: the pricing arithmetic (C01).",
+        note="Decided: R17.1 InputAmount/OutputAmount and SwapInput/SwapOutput call the same pricing function on (msg.direction, msg amount, State reserves) and use the result unchanged; R17.2 reserve writer gets requested amount unchanged, priced amount on the other side, direction unchanged/flipped; R17.3 limit table (receive: >= limit, owe: <= limit, zero: untested, rejection only on strict violation); R17.5 engine forwards the caller's limit unchanged on increase, reduce, whole close, full liquidation, and the limit-dropping reversal branch is only reachable with position.size != 0 established (found F13, fixed). Not decided: the pricing arithmetic (C01).",
         design="4/C17"),
     "C20": dict(
         technique="MIR stored-value flow + guard facts: each stored Config field that can differ from the loaded one is matched with a validation fact about that same operand; cap comparisons matched with the value actually written",
@@ -49,7 +49,7 @@ CLAIMED = {
         design="4/C15"),
     "C11": dict(
         technique="MIR expression-tree normalisation and pattern matching (formula identity) for the funding formulas, guard facts for the schedule, stored-value flow for the charge/checkpoint pairing",
-        note="Decided: R11.1 SettleFunding success paths establish now >= next_funding_time; R11.2 premium fraction tree (twap_vamm - twap_oracle)*period/86400 behind the emitted attribute and the funding rate, next funding time max(aligned, now+buffer), buffer = period/2 only at instantiate; R11.3 one append per reply path, cumulative = last + new, payment = tps*fraction/decimals, sign table (negative -> insurance Withdraw(|p|), positive -> transfer to insurance fund, zero -> nothing); R11.4 margin and checkpoint come from the same remain-margin result at every position store or are both untouched/reset. Not decided: TWAP values (C18), numeric exactness beyond formula identity, the cap min(balance, p) arithmetic.",
+        note="Decided: R11.1 SettleFunding success paths establish now >= next_funding_time; R11.2 premium fraction tree (twap_vamm - twap_oracle)*period/86400 behind the emitted attribute and the funding rate, next funding time max(aligned, now+buffer), buffer = period/2 only at instantiate; R11.3 one append per reply path, cumulative = last + new, payment = tps*fraction/decimals, sign table (negative -> insurance Withdraw(|p|), positive -> transfer to insurance fund, zero -> nothing); R11.4 margin and checkpoint come from the same remain-margin result at every position store or are both untouched/reset; R11.5 every reply that ends a position (close, liquidation, reversal) settles the outstanding funding payment into the margin it pays out or carries over (found F11, fixed). Not decided: TWAP values (C18), numeric exactness beyond formula identity, the cap min(balance, p) arithmetic.",
         design="4/C11"),
     "C04": dict(
         technique="MIR guard facts, expression-tree pattern matching of the payout and margin-delta formulas, sibling agreement close/liquidation, &mut State effect tracking for the prepaid-bad-debt accounting",
@@ -61,15 +61,15 @@ CLAIMED = {
         design="4/C12"),
     "C05": dict(
         technique="MIR guard facts with formula matching of the compared operands, event ordering on success paths (store before margin-ratio query), stored-value and transfer-amount flow",
-        note="Decided: R05.1 leverage >= decimals and decimals^2/leverage >= config.initial_margin_ratio on every OpenPosition success path; R05.2 every Open chain ending with a live stored position queries that position's margin ratio after the store and establishes it >= config.maintenance_margin_ratio; R05.3 WithdrawMargin: bad-debt guard, signed (free collateral - amount) >= 0 guard for (msg.vamm, info.sender), payout exactly msg.amount to info.sender, stored margin = remain_margin(position, -amount).margin; R05.4 DepositMargin stores margin + msg.amount and collects exactly msg.amount in both collateral arms. Not decided: correctness of the margin-ratio / free-collateral formulas beyond operand selection (R06.3).",
+        note="Decided: R05.1 leverage >= decimals and decimals^2/leverage >= config.initial_margin_ratio on every OpenPosition success path; R05.2 every Open chain ending with a live stored position queries that position's margin ratio after the store and establishes it >= config.maintenance_margin_ratio; R05.3 WithdrawMargin: bad-debt guard, signed (free collateral - amount) >= 0 guard for (msg.vamm, info.sender), payout exactly msg.amount to info.sender, stored margin = remain_margin(position, -amount).margin; R05.4 DepositMargin stores margin + msg.amount and collects exactly msg.amount in both collateral arms (the native attached-funds assertion is an equality). Not decided: correctness of the margin-ratio / free-collateral formulas beyond operand selection (R06.3).",
         design="4/C05"),
     "C06": dict(
         technique="MIR guard facts and expression-tree pattern matching: liquidation guard and ratio selection, spot/TWAP selection sibling agreement, spread-limit tree, fee and partial-amount trees, receiver classes",
-        note="Decided: R06.1 selected ratio <= maintenance on every Liquidate success path; R06.2 oracle ratio selected iff over-spread and (oracle - base) > 0, else the base ratio of (msg.vamm, msg.trader); R06.3 TWAP figures iff |spot pnl| > |twap pnl| in MarginRatio and FreeCollateral; R06.4 |((quote*D/base - oracle)*D)/oracle| >= D/10; R06.5 liquidator fee (output*fee/D)/2, only liquidator and insurance fund receive, position removed; R06.6 partial swap amount size*ratio/D, equal penalty halves. Not decided: numeric outcome; overshoot of a partial liquidation (C02 sign table).",
+        note="Decided: R06.1 selected ratio <= maintenance on every Liquidate success path; R06.2 oracle ratio selected iff over-spread and (oracle - base) > 0, else the base ratio of (msg.vamm, msg.trader); R06.3 TWAP figures iff |spot pnl| > |twap pnl| in MarginRatio and FreeCollateral; R06.4 |((quote*D/base - oracle)*D)/oracle| >= D/10; R06.5 liquidator fee (output*fee/D)/2, only liquidator and insurance fund receive, the insurance fund exactly remain_margin - fee, position removed; R06.6 partial swap amount size*ratio/D, equal penalty halves. Not decided: numeric outcome; overshoot of a partial liquidation (C02 sign table).",
         design="4/C06"),
     "C13": dict(
         technique="MIR sibling-arm agreement on every branch over the collateral kind: transfer constructors compared by (receiver, amount), native required-funds increments compared as a multiset with the amounts the cw20 arm pulls from the trader on the path with the same other conditions",
-        note="Decided (the structural clause the 2-run relation rests on): R13.1 native and cw20 arms of every transfer constructor build the same (receiver, amount); R13.1b in the Open replies the native arm raises SentFunds.required by exactly what the cw20 arm pulls from the trader; R13.2 native terminal paths pass the exact-match check, the check accepts equality only, SentFunds is created only by OpenPosition with required=0; R13.3 no chain step pulls cw20 funds from the trader without native attached-funds accounting (known finding F10 on both close replies). Not decided: equality of the two runs' outcomes as such; allowance/balance failure modes.",
+        note="Decided (the structural clause the 2-run relation rests on): R13.1 native and cw20 arms of every transfer constructor build the same (receiver, amount); R13.1b in the Open replies the native arm raises SentFunds.required by exactly what the cw20 arm pulls from the trader; R13.2 native terminal paths pass the exact-match check, the check accepts equality only, SentFunds is created only by OpenPosition with required=0; R13.3 every cw20 pull a chain step can emit is from the caller of the transaction (the premise only lets a native call mirror pulls from the caller); R13.4 arms whose chain pulls from the caller never condition success on the attached coins beyond the collateral-coin lookup. Not decided: equality of the two runs' outcomes as such; allowance/balance failure modes.",
         design="4/C13"),
     "C19": dict(
         technique="finite-domain abstract interpretation of the extracted MIR paths of every Integer operation over the complete sign x zero-ness x magnitude-order case space, compared with the mathematical table",
@@ -81,11 +81,11 @@ CLAIMED = {
         design="4/C01"),
     "C02": dict(
         technique="finite-domain sign-table interpretation over the execute->vAMM->reply chain graph: side/direction helper tables, vAMM direction plumbing and event-attribute mapping extracted from MIR and composed for every assignment of acting side x position kind",
-        note="Decided: R02.1 on every swap edge and assignment the engine's size change has the sign of the vAMM's net-position change and its operand is the base amount of that swap kind (known finding F8: partial liquidation through SwapInput); R02.2 positions are removed/zeroed only after a SwapOutput of size.value in the position's own direction, every swap reply path stores or removes the position; R02.3 attribute keys / type values parsed by the engine are those the vAMM emits, with requested vs priced amounts on the right keys. Not decided: assumes the stored invariant size>0 <=> direction==AddToAmm; failed transactions are covered by C08.",
+        note="Decided: R02.1 on every swap edge and assignment the engine's size change has the sign of the vAMM's net-position change and its operand is the base amount of that swap kind (known finding F8: partial liquidation through SwapInput); R02.2 positions are removed/zeroed only after a SwapOutput of size.value in the position's own direction, every swap reply path stores or removes the position; R02.3 attribute keys / type values parsed by the engine are those the vAMM emits, with requested vs priced amounts on the right keys; R02.4 the reduce-vs-reverse decision compares the position's current spot notional with the requested notional, and the partial-liquidation ratio that scales the liquidated size is validated <= decimals at every writer. Not decided: assumes the stored invariant size>0 <=> direction==AddToAmm; failed transactions are covered by C08.",
         design="4/C02"),
     "C07": dict(
-        technique="MIR cross-contract type agreement of every query edge (resolved generic arguments), chain-wide absence of gating facts, contradiction rule between the selection comparison and the partial reply's arithmetic, event-order rule for balance-sized top-ups, return-vs-queued agreement",
-        note="Liveness is not statically decidable; decided are necessary conditions: R07.1 all 15 in-repo query edges deserialise the type the target serialises (known finding F1: vAMM<-pricefeed GetPrice); R07.2 Liquidate chain not gated by pause, restriction mode or sender identity; R07.3 magnitude-based full/partial selection vs fallible unsigned margin arithmetic in the partial reply (known finding F2); R07.4 no balance-sized insurance top-up after an unreported outgoing vault transfer (known findings F3 x2); R07.5 amount reported as incoming equals the queued Withdraw; R07.6 strict already-outside band test. Not decided: that the swap can be filled, arithmetic overflow, insurance solvency.",
+        technique="MIR cross-contract type agreement of every query edge (resolved generic arguments), chain-wide absence of gating facts, contradiction rule between the selection comparison and the partial reply's arithmetic, event-order rule for balance-sized top-ups, return-vs-queued agreement, non-zero-amount facts inherited down the call chain for every token-moving message of the liquidation replies",
+        note="Liveness is not statically decidable; decided are necessary conditions: R07.1 all 15 in-repo query edges deserialise the type the target serialises (known finding F1: vAMM<-pricefeed GetPrice); R07.2 Liquidate chain not gated by pause, restriction mode or sender identity; R07.3 magnitude-based full/partial selection vs fallible unsigned margin arithmetic in the partial reply (known finding F2); R07.4 no balance-sized insurance top-up after an unreported outgoing vault transfer (known findings F3 x2); R07.5 amount reported as incoming equals the queued Withdraw; R07.6 strict already-outside band test; R07.7 every token-moving message a liquidation reply can emit (bank send, cw20 transfer, insurance Withdraw) has an amount that is non-zero by a fact of the emitting path, because a zero transfer is rejected and reverts the Liquidate (found F12, fixed). Not decided: that the swap can be filled, arithmetic overflow, insurance solvency.",
         design="4/C07"),
     "C18": dict(
         technique="MIR writer census and pairing for reserve snapshots, stored-value flow for the price feed, and linear (telescoping) check of the TWAP weights on the bounded-unrolled prefix of the two averaging loops",
